@@ -67,6 +67,12 @@ impl Housekeeper {
         }
     }
 
+    /// Re-bases the periodical sync deadline on a (mock) clock reading.
+    #[cfg(mini_moka_verif)]
+    pub(crate) fn verif_reset_sync_after(&self, now: Instant) {
+        self.sync_after.set_instant(Self::sync_after(now));
+    }
+
     fn sync_after(now: Instant) -> Instant {
         let dur = Duration::from_millis(PERIODICAL_SYNC_INTERVAL_MILLIS);
         let ts = now.checked_add(dur);
